@@ -174,6 +174,8 @@ pub enum MetaSpec {
     /// label, small metadatum tree seed
     Metadatum(u64, u8),
     Json(u64, u8),
+    /// a JSON text of `chars` characters, each `bytes_per_char` bytes long in UTF-8 (1 = ASCII, 2 = 'é', 3 = '€')
+    Text(u64, u8, u8),
     /// auxiliary data with scripts (forces the tag-259 form)
     AuxScripts { native: Vec<ScriptId>, plutus: Vec<ScriptId>, prefer_alonzo: bool },
 }
